@@ -10,7 +10,11 @@ from props import c04_position as P4
 
 PROPERTY = 'C11'
 LEVEL = 'exploration'
-RULE = ('After a minimal login (optionally with compression 0/64/256) the '
+RULE = ('Also: an outgoing listener disconnecting after the d-th '
+        'keep-alive reply of a burst (each still answered once); a '
+        'reply write that fails with an OS error followed by the '
+        "server's disconnect packet (clean ending, no error). "
+'After a minimal login (optionally with compression 0/64/256) the '
         'scripted server sends a history of 1-400 packets drawn from '
         'keep-alives (ids at every VarInt/Long boundary incl. 32-bit '
         'patterns >= 2^31 and negative Longs from protocol 339), '
